@@ -8,49 +8,64 @@ import (
 )
 
 // Int32 mirrors atomic.Int32.
-type Int32 struct{ v uatomic.Int32 }
+type Int32 struct {
+	v  uatomic.Int32
+	hh uint64
+}
 
 // NewInt32 mirrors atomic.NewInt32.
 func NewInt32(i int32) *Int32 { x := &Int32{}; x.v.Store(i); return x }
 
-func (i *Int32) Load() int32                 { vsync.AtomicPoint(); return i.v.Load() }
-func (i *Int32) Store(v int32)               { vsync.AtomicPoint(); i.v.Store(v) }
-func (i *Int32) Inc() int32                  { vsync.AtomicPoint(); return i.v.Inc() }
-func (i *Int32) Dec() int32                  { vsync.AtomicPoint(); return i.v.Dec() }
-func (i *Int32) Add(d int32) int32           { vsync.AtomicPoint(); return i.v.Add(d) }
-func (i *Int32) Sub(d int32) int32           { vsync.AtomicPoint(); return i.v.Sub(d) }
-func (i *Int32) Swap(v int32) int32          { vsync.AtomicPoint(); return i.v.Swap(v) }
-func (i *Int32) CAS(o, n int32) bool         { vsync.AtomicPoint(); return i.v.CompareAndSwap(o, n) }
-func (i *Int32) CompareAndSwap(o, n int32) bool { vsync.AtomicPoint(); return i.v.CompareAndSwap(o, n) }
+func (i *Int32) Load() int32                 { vsync.AtomicPointOn(&i.hh); return i.v.Load() }
+func (i *Int32) Store(v int32)               { vsync.AtomicPointOn(&i.hh); i.v.Store(v) }
+func (i *Int32) Inc() int32                  { vsync.AtomicPointOn(&i.hh); return i.v.Inc() }
+func (i *Int32) Dec() int32                  { vsync.AtomicPointOn(&i.hh); return i.v.Dec() }
+func (i *Int32) Add(d int32) int32           { vsync.AtomicPointOn(&i.hh); return i.v.Add(d) }
+func (i *Int32) Sub(d int32) int32           { vsync.AtomicPointOn(&i.hh); return i.v.Sub(d) }
+func (i *Int32) Swap(v int32) int32          { vsync.AtomicPointOn(&i.hh); return i.v.Swap(v) }
+func (i *Int32) CAS(o, n int32) bool         { vsync.AtomicPointOn(&i.hh); return i.v.CompareAndSwap(o, n) }
+func (i *Int32) CompareAndSwap(o, n int32) bool { vsync.AtomicPointOn(&i.hh); return i.v.CompareAndSwap(o, n) }
 
 // Raw reads without a schedule point (inspection only).
 func (i *Int32) Raw() int32 { return i.v.Load() }
 
 // Int64 mirrors atomic.Int64.
-type Int64 struct{ v uatomic.Int64 }
+type Int64 struct {
+	v  uatomic.Int64
+	hh uint64
+}
 
-func (i *Int64) Load() int64       { vsync.AtomicPoint(); return i.v.Load() }
-func (i *Int64) Store(v int64)     { vsync.AtomicPoint(); i.v.Store(v) }
-func (i *Int64) Inc() int64        { vsync.AtomicPoint(); return i.v.Inc() }
-func (i *Int64) Dec() int64        { vsync.AtomicPoint(); return i.v.Dec() }
-func (i *Int64) Add(d int64) int64 { vsync.AtomicPoint(); return i.v.Add(d) }
+func (i *Int64) Load() int64       { vsync.AtomicPointOn(&i.hh); return i.v.Load() }
+func (i *Int64) Store(v int64)     { vsync.AtomicPointOn(&i.hh); i.v.Store(v) }
+func (i *Int64) Inc() int64        { vsync.AtomicPointOn(&i.hh); return i.v.Inc() }
+func (i *Int64) Dec() int64        { vsync.AtomicPointOn(&i.hh); return i.v.Dec() }
+func (i *Int64) Add(d int64) int64 { vsync.AtomicPointOn(&i.hh); return i.v.Add(d) }
 
 // Bool mirrors atomic.Bool.
-type Bool struct{ v uatomic.Bool }
+type Bool struct {
+	v  uatomic.Bool
+	hh uint64
+}
 
-func (b *Bool) Load() bool         { vsync.AtomicPoint(); return b.v.Load() }
-func (b *Bool) Store(v bool)       { vsync.AtomicPoint(); b.v.Store(v) }
-func (b *Bool) CAS(o, n bool) bool { vsync.AtomicPoint(); return b.v.CompareAndSwap(o, n) }
+func (b *Bool) Load() bool         { vsync.AtomicPointOn(&b.hh); return b.v.Load() }
+func (b *Bool) Store(v bool)       { vsync.AtomicPointOn(&b.hh); b.v.Store(v) }
+func (b *Bool) CAS(o, n bool) bool { vsync.AtomicPointOn(&b.hh); return b.v.CompareAndSwap(o, n) }
 
 // String mirrors atomic.String.  It is passed by value in stcp, so it holds a pointer-free copyable
 // representation exactly like the original (which wraps atomic.Value).
-type String struct{ v uatomic.String }
+type String struct {
+	v  uatomic.String
+	hh uint64
+}
 
-func (s *String) Load() string   { vsync.AtomicPoint(); return s.v.Load() }
-func (s *String) Store(v string) { vsync.AtomicPoint(); s.v.Store(v) }
+func (s *String) Load() string   { vsync.AtomicPointOn(&s.hh); return s.v.Load() }
+func (s *String) Store(v string) { vsync.AtomicPointOn(&s.hh); s.v.Store(v) }
 
 // Value mirrors atomic.Value.
-type Value struct{ v uatomic.Value }
+type Value struct {
+	v  uatomic.Value
+	hh uint64
+}
 
 func (x *Value) Load() interface{}   { vsync.AtomicPoint(); return x.v.Load() }
-func (x *Value) Store(v interface{}) { vsync.AtomicPoint(); x.v.Store(v) }
+func (x *Value) Store(v interface{}) { vsync.AtomicPointOn(&x.hh); x.v.Store(v) }
